@@ -37,7 +37,17 @@ def resolve(func_path: str):
     return getattr(importlib.import_module(mod), name)
 
 
+def _die_with_parent():
+    try:
+        import ctypes
+
+        ctypes.CDLL("libc.so.6", use_errno=True).prctl(1, signal.SIGKILL)  # PR_SET_PDEATHSIG
+    except Exception:
+        pass
+
+
 def _worker_main(conn, wdir: str, nice: int):
+    _die_with_parent()
     os.makedirs(wdir, exist_ok=True)
     os.chdir(wdir)
     os.umask(0o022)
